@@ -613,6 +613,7 @@ impl<'tcx> Dumper<'tcx> {
                     ("k", esc("repeat")),
                     ("a", self.operand(o, env)),
                     ("n", cnt.map(|n| n.to_string()).unwrap_or_else(|| "null".into())),
+                    ("np", if cnt.is_none() { esc(&format!("{}", n)) } else { "null".into() }),
                 ])
             }
             Rvalue::Ref(_, bk, p) => obj(&[
